@@ -136,3 +136,11 @@ type Obs struct {
 	DV     [][]FV               `json:"dv"`
 	Stats  map[string]StatObs   `json:"stats"`
 }
+
+// Terms0 returns the first term's text (nil if the field has no terms).
+func (f *Field) Terms0() Bytes {
+	if len(f.Terms) == 0 {
+		return nil
+	}
+	return f.Terms[0].T
+}
